@@ -674,6 +674,176 @@ def quiet_connection_case(ctx, quiet_s: int, pending_read: bool, kind: str) -> N
 SAFETY_QUIET = 120
 
 
+def stalled_close_case(ctx, stall_s: float, total_kib: int) -> None:
+    """write() has accepted lines that still sit in user space (the peer is alive but not reading, tiny socket buffers),
+    disconnect() is called, and the peer starts reading `stall_s` virtual seconds later: every accepted line must arrive -
+    a disconnect that gives up after some seconds throws accepted bytes away without any error."""
+    from ..vloop import LogicalDeadlock, run_virtual
+
+    case = {"engine": "stalled-close", "stall_s": stall_s, "total_kib": total_kib}
+    received = bytearray()
+    state: dict = {}
+
+    async def scenario() -> None:
+        from aiomysensors.transport.tcp import TCPTransport
+
+        finished = asyncio.Event()
+
+        async def handler(reader, writer) -> None:
+            try:
+                await asyncio.sleep(stall_s)
+                while True:
+                    data = await reader.read(65536)
+                    if not data:
+                        break
+                    received.extend(data)
+            except OSError as err:
+                state["peer_error"] = repr(err)
+            finally:
+                finished.set()
+                writer.close()
+
+        server = await asyncio.start_server(handler, "127.0.0.1", 0)
+        server.sockets[0].setsockopt(socket.SOL_SOCKET, socket.SO_RCVBUF, 4096)
+        transport = TCPTransport("127.0.0.1", server.sockets[0].getsockname()[1])
+        try:
+            await transport.connect()
+            sock = transport.writer.get_extra_info("socket")
+            sock.setsockopt(socket.SOL_SOCKET, socket.SO_SNDBUF, 4096)
+            # write until the kernel's buffers are full and `total_kib` KiB more sit in the transport's user-space buffer
+            # (below asyncio's high-water mark, so every write() call still returns)
+            accepted = []
+            target = min(total_kib, 60) * 1024
+            buffered = transport.writer.transport.get_write_buffer_size
+            for _round in range(200):
+                while buffered() < target and len(accepted) < 20000:
+                    line = f"{len(accepted) % 250};0;1;0;2;" + "x" * 1000 + "\n"
+                    await transport.write(line)
+                    accepted.append(line)
+                before = buffered()
+                for _ in range(3):  # a few idle loop rounds = a few 10 ms of REAL time (VLoop grace) for the kernel to take more
+                    await asyncio.sleep(0.001)
+                if buffered() >= before and before >= target - 2048:
+                    break  # nothing moved: the kernel's buffers are full, `before` bytes sit in user space
+            state["accepted"] = "".join(accepted).encode()
+            state["user_space"] = transport.writer.transport.get_write_buffer_size()
+            try:
+                await transport.disconnect()
+            except Exception as exc:  # noqa: BLE001
+                state["disconnect_error"] = exc
+            await asyncio.wait_for(finished.wait(), stall_s + 600)
+        finally:
+            server.close()
+            await server.wait_closed()
+
+    result, _loop = run_virtual(scenario, grace=0.01)
+    if isinstance(result, LogicalDeadlock):
+        ctx.inconclusive.append(f"stalled-close case {case}: logical deadlock (loopback delivery too slow?)")
+        return
+    if isinstance(result, BaseException):
+        from ..harness import scenario_exception
+
+        scenario_exception(ctx, result, case, "stalled-close")
+        return
+    ctx.case(("stalled-close", stall_s, total_kib), sample=case)
+    ctx.clause("disconnect-with-accepted-bytes-pending")
+    ctx.obs("stalled-close-user-space-kib", (state.get("user_space") or 0) // 1024)
+    if (state.get("user_space") or 0) < 1024:
+        ctx.inconclusive.append(f"stalled-close case {case}: nothing was left in user space at disconnect")
+        return
+    if isinstance(state.get("disconnect_error"), BaseException):
+        ctx.violation("disconnect-raises", f"disconnect with {total_kib} KiB accepted but unread raised "
+                                           f"{type(state['disconnect_error']).__name__}", case)
+    if bytes(received) != state.get("accepted"):
+        ctx.violation("written-bytes-differ", f"{total_kib} KiB were accepted by write(), the peer started reading {stall_s} "
+                                              f"virtual seconds after disconnect() was called and received "
+                                              f"{len(received)} of {len(state.get('accepted') or b'')} bytes"
+                                              f"{' (' + state['peer_error'] + ')' if state.get('peer_error') else ''}", case)
+
+
+async def kernel_timeout_case(ctx, seed: int) -> None:
+    """If the transport configured kernel-level timers on its socket (TCP_USER_TIMEOUT, keep-alive probes), a peer that is
+    alive but does not read for longer than that must still get every line: the stall is sized from the socket's own
+    options (real seconds; 0.5 s when nothing is configured) - the verdict is what the peer received."""
+    import random
+
+    from aiomysensors.transport.tcp import TCPTransport
+
+    rng = random.Random(seed)
+    received = bytearray()
+    start_reading = asyncio.Event()
+    done = asyncio.Event()
+
+    async def handler(reader, writer) -> None:
+        try:
+            await start_reading.wait()
+            while True:
+                data = await reader.read(65536)
+                if not data:
+                    break
+                received.extend(data)
+        except OSError:
+            pass
+        finally:
+            done.set()
+            writer.close()
+
+    server = await asyncio.start_server(handler, "127.0.0.1", 0)
+    server.sockets[0].setsockopt(socket.SOL_SOCKET, socket.SO_RCVBUF, 4096)
+    transport = TCPTransport("127.0.0.1", server.sockets[0].getsockname()[1])
+    failures: list[str] = []
+    calls: list[str] = []
+    try:
+        await transport.connect()
+        sock = transport.writer.get_extra_info("socket")
+        options = {}
+        for name in ("TCP_USER_TIMEOUT", "TCP_KEEPIDLE", "TCP_KEEPINTVL", "TCP_KEEPCNT"):
+            try:
+                options[name] = sock.getsockopt(socket.IPPROTO_TCP, getattr(socket, name))
+            except (OSError, AttributeError):
+                options[name] = None
+        options["SO_KEEPALIVE"] = sock.getsockopt(socket.SOL_SOCKET, socket.SO_KEEPALIVE)
+        stall = 0.5
+        if options.get("TCP_USER_TIMEOUT"):
+            stall = max(stall, options["TCP_USER_TIMEOUT"] / 1000 + 3)
+        if options["SO_KEEPALIVE"] and options.get("TCP_KEEPIDLE") and options["TCP_KEEPIDLE"] < 60:
+            stall = max(stall, options["TCP_KEEPIDLE"] + (options.get("TCP_KEEPINTVL") or 1) * (options.get("TCP_KEEPCNT") or 1) + 3)
+        stall = min(stall, 45.0)
+        case = {"engine": "kernel-timeout", "seed": seed, "socket_options": options, "stall_s": stall}
+        sock.setsockopt(socket.SOL_SOCKET, socket.SO_SNDBUF, 4096)
+
+        async def writer_task(index: int) -> None:
+            for j in range(40):
+                line = f"{index};{j};" + "y" * 2000 + "\n"
+                calls.append(line)
+                try:
+                    await transport.write(line)
+                except Exception as exc:  # noqa: BLE001
+                    failures.append(f"{type(exc).__name__}: {exc!s:.80}")
+                    return
+
+        tasks = [asyncio.ensure_future(writer_task(i)) for i in range(3)]
+        await asyncio.sleep(stall)
+        start_reading.set()
+        await asyncio.wait_for(asyncio.gather(*tasks), 120)
+        await transport.disconnect()
+        await asyncio.wait_for(done.wait(), 60)
+    finally:
+        server.close()
+        await server.wait_closed()
+    ctx.case(("kernel-timeout", seed, stall), sample=case)
+    ctx.clause("peer-stalls-longer-than-socket-timers")
+    ctx.obs(f"socket-user-timeout-ms:{options.get('TCP_USER_TIMEOUT')}")
+    ctx.obs("stall-real-seconds", int(stall * 10) / 10)
+    _ = rng
+    if failures:
+        ctx.violation("write-fails-without-io-error", f"the peer (alive) did not read for {stall} s (socket options {options}): "
+                                                      f"write raised {failures[0]}", case)
+    elif bytes(received) != "".join(calls).encode():
+        ctx.violation("written-bytes-differ", f"the peer (alive) did not read for {stall} s (socket options {options}): it "
+                                              f"received {len(received)} of {len(''.join(calls).encode())} bytes", case)
+
+
 def two_loop_backpressure(ctx, n_writers: int, line_size: int, seed: int, loops: int = 2) -> None:
     """The same transport object used in successive sessions that each run under their OWN event loop (an application
     that calls asyncio.run(main(transport)) again after a lost connection); every session has back-pressured concurrent
@@ -906,6 +1076,10 @@ def run_case(ctx, case: dict) -> None:
                             case.get("disconnect_between", True)))
     elif case.get("engine") == "serial-pty" and not str(case["stream"]).startswith("<"):
         arun(serial_case(ctx, bytes.fromhex(case["stream"]), case["chunks"], case["writes"]))
+    elif case.get("engine") == "stalled-close":
+        stalled_close_case(ctx, case["stall_s"], case["total_kib"])
+    elif case.get("engine") == "kernel-timeout":
+        arun(kernel_timeout_case(ctx, case["seed"]))
     elif str(case.get("engine", "")).startswith("quiet-"):
         quiet_connection_case(ctx, case["quiet_s"], case["pending_read"], case["engine"].split("-", 1)[1])
     else:
@@ -978,6 +1152,11 @@ def run(ctx) -> None:
                                                                      if d >= 5)]):
                 if ctx.mine(i):
                     quiet_connection_case(ctx, quiet_s, pending, "tcp")
+            for i, (stall_s, kib) in enumerate([(1, 40), (4, 56), (6, 56), (11, 48), (31, 60), (61, 32), (301, 56), (3601, 60)]):
+                if ctx.mine(i):
+                    stalled_close_case(ctx, stall_s, kib)
+            if ctx.shard_index == (4 % ctx.shard_count):
+                arun(kernel_timeout_case(ctx, ctx.seed))
             for i in range(ctx.pick(3, 40) // ctx.shard_count + 1):
                 two_loop_backpressure(ctx, rng.choice([3, 5, 8]), rng.choice([2000, 20000, 70000]),
                                       ctx.seed * 100000 + ctx.shard_index * 1000 + 500 + i, loops=rng.choice([2, 2, 3]))
